@@ -70,9 +70,14 @@ package codegen
 
 // object.gotpl: _T. Concurrent fields are handed to the FieldSet as closures (innerFunc) that run on spawned
 // goroutines: the spawn rule (no panic escapes) is imposed on each of them.
-//@ family object$closure [C04]
+//@ family object$closure [C04,C13]
 //@   params innerFunc
 //@   noescape
+// a NonNull field that came back null is counted in the field set the closure is run FOR (its parameter: the main
+// set, or the set of the deferred group) - counting it in a captured set would hide the failure from the group
+//@   callsite AddUint32: requires argtext0 == "&fs.Invalids" && declaredHere(fs)
+//@   at? `assign fs.Invalids` requires declaredHere(fs)
+//@   at? `assign out.Invalids` requires false
 //@   ensures panicked ==> calls(Recover) == 1 && calls(Error) == 1
 //@   ensures !panicked ==> calls(Recover) == 0 && calls(Error) == 0
 
